@@ -21,6 +21,13 @@ Definition RX : FloatX R :=
      fx_max := Rmax;
      fx_eps := (/ 4503599627370496)%R |}.
 
+(** the same primitives over the reals with the tolerance of abs_diff_eq as a parameter: [RXe 0] reads
+    `abs_diff_eq!(a, 0)` as `a = 0` (the algorithm as documented), [RXe 2^-52] is [RX] *)
+Definition RXe (e : R) : FloatX R :=
+  {| fx_signum := fun x => if Rlt_dec x 0 then (-1)%R else 1%R;
+     fx_max := Rmax;
+     fx_eps := e |}.
+
 Definition b64_signum (x : float) : float :=
   if PrimFloat.eqb x x then (if PrimFloat.get_sign x then (-1)%float else 1%float) else nan.
 Definition b64_max (a b : float) : float :=
